@@ -38,6 +38,11 @@ Exec(RB, tree, loc, glo, path) ==
                             LET kv == Visible(kidloc, kidglo) k == RuleIdx(kv, n.row) IN k = 0 \/ kv[k].logic # "rewrite")]
                   ELSE [tree EXCEPT ![i] = [row |-> row, kids |-> tree[i].kids]]
 
+RECURSIVE PresentPath(_, _)        \* the path of rows exists in the tree
+PresentPath(tree, path) == IF path = <<>> THEN TRUE
+                           ELSE LET i == IdxOf(tree, Head(path)) IN i # 0 /\ PresentPath(tree[i].kids, Tail(path))
+RECURSIVE KidsAt(_, _)             \* children of the node at an existing path
+KidsAt(tree, path) == IF Len(path) = 1 THEN KidsOf(tree, path[1]) ELSE KidsAt(KidsOf(tree, Head(path)), Tail(path))
 RECURSIVE ExecAll(_, _, _)
 ExecAll(RB, tree, cmds) == IF cmds = <<>> THEN tree ELSE ExecAll(RB, Exec(RB, tree, RB.rules, <<>>, Head(cmds)), Tail(cmds))
 
